@@ -59,10 +59,13 @@ def cases(tier):
     for b in OPS[:4]:
       o0, t0 = chain(a, ('TANH', ''))
       o1, t1 = chain(b, ('FULLY_CONNECTED', 'bias'))
-      yield {'ir': {'subgraphs': [{'ops': o0, 'exports': []},
-                                  {'ops': o1, 'exports': [], 'prefix': 'b_',
-                                   'key': 'sig1'}]},
-             'targets': t0, 'multi': True, 'targets1': t1}
+      for rev in (False, True):
+        mir = {'subgraphs': [{'ops': o0, 'exports': []},
+                             {'ops': o1, 'exports': [], 'prefix': 'b_',
+                              'key': 'sig1'}]}
+        if rev:
+          mir['sigdefs'] = 'rev'
+        yield {'ir': mir, 'targets': t0, 'multi': True, 'targets1': t1}
 
 
 def plan(tier, seed):
